@@ -197,6 +197,14 @@ fn parse_path(
                     .to_err_vec()?;
                 let lhs_ty = lhs_ty.assume_type_of_self(&user_data);
 
+                // the members of a module are written by the module alone, whatever name
+                // (the import itself or an alias of it) the module is reached by.
+                let is_const = is_const
+                    || matches!(
+                        lhs_ty.disregard_distractors(false),
+                        TypeLayout::Module(..)
+                    );
+
                 let (dot_chain, expected_type) = Parser::dot_chain(
                     Node::new_with_user_data(op, Rc::clone(&user_data)),
                     Cow::Borrowed(&lhs_ty),
